@@ -1,7 +1,7 @@
 (** Statements of the C10 theorems spelled out again, so that a theorem cannot be silently
     weakened: this file stops compiling if a statement in Props/C10.v changes. *)
 From Coq Require Import List ZArith NArith Bool.
-From BV Require Import Model.Replica Proofs.Replica Props.C10.
+From BV Require Import Base.Common Model.Replica Proofs.Replica Corr.C10 Props.C10.
 Import ListNotations.
 
 Check C10_one_per_event_consecutive :
@@ -71,6 +71,9 @@ Check C10_repeat_skipped :
   (forall (pre : list (N * audit P)) (r : replica rest) t ts,
      replica_run rest P u1 u2 u3 u4 r (pre ++ t :: t :: ts) =
      replica_run rest P u1 u2 u3 u4 r (pre ++ t :: ts)).
+
+Check C10_oracle_sound : forall c : case, corr_b c = true -> prop_b c = true.
+Check C10_oracle_sound_wf : forall c : case, wf_case c = true -> corr_b c = true -> prop_b c = true.
 
 (* the definitions the statements rest on, pinned by evaluation *)
 Check eq_refl : proj (Some (mkOrder 1 2 OIF)) = None.
